@@ -12,12 +12,17 @@ upsert edge (same id, redirected) | add edge | add episode(owner A|B; fresh id) 
 holds (a revised episode: same id, other text / vector / timestamp / importance) | toggle kill switch | config change
 (k_retrieval, sim_threshold, ranking, owner_scope, exact_recent_days, t1.radius_cap, tiers) | cache clock += ttl+1
 | logical day += 40 | logical clock +- 12 h | scheduler slice on/off | switch to an independent second state with the
-same graph ids / sizes.
+same graph ids / sizes | an apply whose approved batch carries a graph edit among re-asserted nodes (the apply entry point of
+graph edits; the first graph of both worlds is the surface graph apply writes) | renewal of the state in use: the state is
+released and a brand-new one (equal ids / counts / version counters, other memories) is constructed at the recycled
+addresses (state lifetimes that do not overlap; mc/recycle.py).
 
 Second leg (configuration sweep, see SWEEP below): the same twin oracle over [turn, P, turn], [M, turn, turn] and
 [M, turn, P, turn] for a catalogue of single-parameter changes P covering every t1.* / t2.* parameter the validator
 accepts plus the perf.* / scheduler knobs the two stages read, M over the mode-selecting entries (quick) or the
-whole catalogue (thorough).  A turn in which the engine raises is an observation, not a harness error.
+whole catalogue (thorough); and over [M, turn, E, turn] for every graph edit E (each field of a node / edge, through the direct
+upsert and through an apply-carried batch) and both renewals of the state (other memories / other graphs).  A turn in which the
+engine raises is an observation, not a harness error.
 """
 from __future__ import annotations
 
@@ -31,13 +36,16 @@ import numpy as np
 
 from mc.runner import Run, Stats, HarnessError
 from mc import world as W
+from mc.recycle import rebirth
 
 from clematis.engine.cache import CacheManager, LRUCache, ThreadSafeCache
 import clematis.engine.orchestrator as orch_pkg
 from clematis.engine.orchestrator import core as orch_core
 from clematis.engine.stages import t1 as t1_mod
 from clematis.engine.stages.t2 import cache as t2c_mod
-from clematis.engine.types import Node, Edge
+from clematis.engine.types import Node, Edge, T4Result
+from clematis.graph.store import InMemoryGraphStore
+from clematis.memory.index import InMemoryIndex
 
 if not hasattr(orch_core, "make_plan_bundle"):
     raise HarnessError("seam missing: orchestrator.core.make_plan_bundle")
@@ -58,10 +66,39 @@ EPR_ALT_CONTENT = ("plum", 20.0, "c2", 0.0)           # second EPR on the same i
 # under every mode entry M.  The sweep leg also runs [M, turn, EPR, turn] (an episode re-added under its id) under every M.
 GEL_EDIT = ("GEL_W",)
 EPR_EDIT = ("EPR", "A")
+# --- graph edits through the apply step.  The statement quantifies over "graph edits ... applies"; an apply that carries
+# approved deltas is the second entry point by which the concept graph changes (orchestrator.apply_changes ->
+# store.apply_deltas, which writes the surface graph).  The first graph of both worlds therefore IS the surface graph, and
+# AP(kind) = an apply whose approved batch re-asserts the nodes the graph already holds (what a turn's own T1 deltas look
+# like: upsert_node for existing ids - no change) plus ONE real edit of the given kind.  The kinds range over every field a
+# delta can change: a new node, a new edge, and for an edge that exists its weight, its endpoints and its relation type
+# (each with the other fields kept).  The same kinds exist through the direct upsert entry point (RELABEL / EDGE_* /
+# NODE_NEW); EDGE_REL re-types an edge there.  A relation type acts on propagation only through t1.edge_type_mult, a weight
+# only where it crosses the contribution threshold, so every edit of both entry points also runs under every
+# configuration M of the sweep leg ([M, turn, edit, turn]) - the catalogue holds the multiplier tables with a zero entry.
+SURF = "g:surface"
+AP_KINDS = ("W", "DST", "REL", "NEW_EDGE", "NEW_NODE")
+# --- state lifetimes.  "independent engine states that live in the same process" need not live at the same time: RENEW
+# ends the state in use (all references dropped, collected) and puts a brand-new state in its place, of which every
+# identity-bearing object (state dict, graph store, memory index) is created after the release.  RENEW(mem): same graph
+# content, the other world's episodes (equal number of additions => equal version counters); RENEW(graph): same episodes,
+# the other world's graphs (equal ids / counts / number of mutations).  Environment answer owned by the harness: the
+# allocator hands a new object the block of the released one (CPython does so routinely), i.e. id() of the new index /
+# store / state equals that of the dead one; the harness asks for that answer (bounded retries, misses held alive) and
+# counts how often it got it.
+RENEW_KINDS = ("mem", "graph")
+GRAPH_EDITS = [("RELABEL",), ("EDGE_W",), ("EDGE_DST",), ("EDGE_NEW",), ("EDGE_REL",), ("NODE_NEW",)] + [("AP", k) for k in AP_KINDS]
+SWEEP_EDITS = [GEL_EDIT, EPR_EDIT] + GRAPH_EDITS + [("RENEW", k) for k in RENEW_KINDS]
+# configurations under which the graph edits run in the quick tier in addition to the mode entries: the relation-type
+# multiplier tables (a re-typed edge is observable only where two relation types carry different, threshold-crossing weight)
+SWEEP_EDIT_MODES = ["mult_sup0", "mult_assoc0"]
 CFGS = [("CFG", "k1"), ("CFG", "thr"), ("CFG", "rank"), ("CFG", "owner"), ("CFG", "days"), ("CFG", "radius"),
         ("CFG", "tiers"), ("CFG", "tiers_rev")]
 MISC = [("KILL",), ("CLK",), ("DAY",), ("HALFDAY",), ("SWITCH",), ("SCHED",)]
-OPS = TURNS + EDITS + CFGS + MISC
+# history alphabet: one apply-carried edit (an edge re-weighted inside a batch of re-asserted nodes) and the renewal of the
+# state in use stand for their families in every position of the BFS; the whole families run in the sweep leg
+LIFE = [("AP", "W"), ("RENEW", "mem")]
+OPS = TURNS + EDITS + CFGS + MISC + LIFE
 
 CFG_CHANGES = {
     "k1": {"t2": {"k_retrieval": 1}},
@@ -298,25 +335,90 @@ class FakeClock:
         return self.t
 
 
-def world_b():
-    """Independent second state: same graph id, same node/edge/episode counts, different content."""
-    st = W.make_world("W0")
-    W._graph(st["store"], "g1",
+def _as_surface(st):
+    """the first graph of a world is the surface graph (the graph the apply step writes): same content, id SURF"""
+    gs = st["store"]._graphs
+    if "g1" in gs:
+        items = [((SURF if k == "g1" else k), g) for k, g in gs.items()]
+        gs.clear()
+        for k, g in items:
+            g.graph_id = k
+            gs[k] = g
+    st["active_graphs"] = [(SURF if g == "g1" else g) for g in st.get("active_graphs", [])]
+    return st
+
+
+def _graphs_b(store):
+    W._graph(store, SURF,
              [("n1", "apple"), ("n2", "pear"), ("n3", "fig")],
              [("e1", "n1", "n3", 0.9, "supports"), ("e2", "n2", "n3", 0.7, "supports")])
-    W._graph(st["store"], "g2", [("m1", "plum"), ("m2", "apple"), ("m3", "fig")],
+    W._graph(store, "g2", [("m1", "plum"), ("m2", "apple"), ("m3", "fig")],
              [("f1", "m2", "m3", 1.0, "supports"), ("f2", "m3", "m1", 0.5, "supports"), ("f3", "m1", "m1", 0.5, "supports")])
-    W._graph(st["store"], "g3", [("k1", "pear"), ("k2", "quince")], [("h1", "k2", "k1", 0.5, "supports")])
-    st["active_graphs"] = ["g1", "g2", "g3"]
-    for e in (W._ep("ep1", "B", "fig tart", 1, "c1", 0.2),
-              W._ep("ep2", "A", "pear pear", 2, "c2", 0.9),
-              W._ep("ep3", "A", "apple fig crumble", 3, "c1", 0.5),
-              W._ep("ep4", "world", "plum", 50, None, None),
-              W._ep("ep5", "A", "apple", 4, "c3", 0.1),
-              W._ep("ep6", "B", "pear apple", 6, "c3", 0.7),
-              W._ep("ep7", "world", "fig fig", 45, None, None)):
+    W._graph(store, "g3", [("k1", "pear"), ("k2", "quince")], [("h1", "k2", "k1", 0.5, "supports")])
+
+
+def _eps_b():
+    return [W._ep("ep1", "B", "fig tart", 1, "c1", 0.2),
+            W._ep("ep2", "A", "pear pear", 2, "c2", 0.9),
+            W._ep("ep3", "A", "apple fig crumble", 3, "c1", 0.5),
+            W._ep("ep4", "world", "plum", 50, None, None),
+            W._ep("ep5", "A", "apple", 4, "c3", 0.1),
+            W._ep("ep6", "B", "pear apple", 6, "c3", 0.7),
+            W._ep("ep7", "world", "fig fig", 45, None, None)]
+
+
+def world_b():
+    """Independent second state: same graph ids, same node/edge/episode counts, different content."""
+    st = W.make_world("W0")
+    _graphs_b(st["store"])
+    st["active_graphs"] = [SURF, "g2", "g3"]
+    for e in _eps_b():
         st["mem_index"].add(e)
     return st
+
+
+def world_a():
+    """First state: world W2 (three graphs, two of them match "apple": per-graph cache entries), first graph = surface graph"""
+    return _as_surface(W.make_world("W2"))
+
+
+WORLD_KINDS = ("a", "b")
+_BUILD = {"a": world_a, "b": world_b}
+
+
+def renew_state(states, cur, kinds, which):
+    """End the state in use and put a brand-new one in its place (see RENEW_KINDS).  kinds[cur] = [graph world, memory world].
+    The caller holds no reference to the state besides states[cur].  Returns mc.recycle's report."""
+    gk, mk = kinds[cur]
+    other = {"a": "b", "b": "a"}
+    if which == "mem":
+        mk = other[mk]
+    else:
+        gk = other[gk]
+    # content of the new state, built while the old one is still alive (so that none of these helpers takes its blocks)
+    g_src = _BUILD[gk]()
+    m_src = g_src if mk == gk else _BUILD[mk]()
+    old = states[cur]
+    states[cur] = None
+    box = [old, [("index", old["mem_index"], InMemoryIndex), ("store", old["store"], InMemoryGraphStore)]]
+    del old
+    new, objs, report = rebirth(box)
+    idx, store = objs["index"], objs["store"]
+    for gid, g in g_src["store"]._graphs.items():      # through the public API, in the builders' order (nodes, then edges)
+        store.upsert_nodes(gid, list(g.nodes.values()))
+        if g.edges:
+            store.upsert_edges(gid, list(g.edges.values()))
+    for e in m_src["mem_index"]._eps:
+        idx.add(e)
+    for k, v in g_src.items():
+        if k not in ("store", "mem_index"):
+            new[k] = v
+    new["store"] = store
+    new["mem_index"] = idx
+    new["_boot_loaded"] = True
+    states[cur] = new
+    kinds[cur] = [gk, mk]
+    return report
 
 
 _CFG_MEMO = {}
@@ -356,7 +458,29 @@ def _t2_obs(t2):
     return {"items": items, "residual": list(getattr(t2, "graph_deltas_residual", []) or []), "metrics": m}
 
 
-def execute(history, cache_cfg, caches_on, scratch, extra_off=None):
+def _other_rel(rel):
+    return "associates" if rel == "supports" else "supports"
+
+
+def _ap_delta(g, kind):
+    """the one real edit of an apply batch (dict form, as store.apply_deltas reads it); same targets and values as the direct letters"""
+    if kind == "W":
+        e = g.edges["e1"]
+        return {"op": "upsert_edge", "id": "e1", "src": e.src, "dst": e.dst, "weight": (0.0 if e.weight > 0.01 else 0.8), "rel": e.rel}
+    if kind == "DST":
+        e = g.edges["e2"]
+        return {"op": "upsert_edge", "id": "e2", "src": "n1", "dst": ("n3" if e.dst != "n3" or e.src != "n1" else "n2"), "weight": 1.0, "rel": "supports"}
+    if kind == "REL":
+        e = g.edges["e1"]
+        return {"op": "upsert_edge", "id": "e1", "src": e.src, "dst": e.dst, "weight": e.weight, "rel": _other_rel(e.rel)}
+    if kind == "NEW_EDGE":
+        return {"op": "upsert_edge", "id": "x%d" % (len(g.edges) + 1), "src": "n3", "dst": "n1", "weight": 1.0, "rel": "supports"}
+    if kind == "NEW_NODE":
+        return {"op": "upsert_node", "id": "nx%d" % (len(g.nodes) + 1), "label": "pear"}
+    raise HarnessError("unknown apply kind %r" % (kind,))
+
+
+def execute(history, cache_cfg, caches_on, scratch, extra_off=None, env=None):
     """Runs one history; returns list of per-turn observations."""
     W.reset_globals()
     ex = W.Exec(scratch, "c05")
@@ -370,7 +494,8 @@ def execute(history, cache_cfg, caches_on, scratch, extra_off=None):
         if "perf" not in ALL_CACHE_CONFIGS[cache_cfg]:
             base.pop("perf", None)
     dyn = {}
-    states = [W.make_world("W2"), world_b()]   # W2: three graphs, two of them match "apple" (per-graph cache entries)
+    states = [world_a(), world_b()]   # world a = W2: three graphs, two of them match "apple" (per-graph cache entries)
+    kinds = [["a", "a"], ["b", "b"]]  # per state: [graph world, memory world]
     for s in states:
         s["_boot_loaded"] = True
     cur = 0
@@ -413,11 +538,16 @@ def execute(history, cache_cfg, caches_on, scratch, extra_off=None):
                 t2c_mod._T2_CACHE_CFG = ("lru", me, ttl)
                 t2c_mod._T2_CACHE_KIND = "lru"
         t4c = (c0.get("t4", {}) or {}).get("cache", {}) or {}
-        if bool(t4c.get("enabled", True)):
-            for s in states:
+
+        def attach_mgr(s):
+            if bool(t4c.get("enabled", True)):
                 s["_cache_mgr"] = CacheManager(max_entries=int(t4c.get("max_entries", 512)),
                                                ttl_sec=int(t4c.get("ttl_sec", 600)), time_fn=fake.time)
+        for s in states:
+            attach_mgr(s)
+        s = None
         turn = 0
+        last_cfg = None
         for op in history:
             kind = op[0]
             st = states[cur]
@@ -437,6 +567,7 @@ def execute(history, cache_cfg, caches_on, scratch, extra_off=None):
                     # (same in the twin run, whose configuration differs in the cache switches only)
                     obs.append({"t1": {"cfg_rejected": type(e).__name__}, "t2": None, "line": None})
                     continue
+                last_cfg = cfg
                 now = W._ts(-day)
                 ctx = W.make_ctx(cfg, op[1], turn, now=now)
                 captured.clear()
@@ -461,18 +592,49 @@ def execute(history, cache_cfg, caches_on, scratch, extra_off=None):
                     o["leak"] = sorted(i for i, _ in o["t2"]["items"] if owners.get(i) != op[1])
                 obs.append(o)
             elif kind == "RELABEL":
-                g = st["store"].get_graph("g1")
+                g = st["store"].get_graph(SURF)
                 n = g.nodes["n3"]
-                st["store"].upsert_nodes("g1", [Node(id="n3", label="plum" if n.label != "plum" else "fig")])
+                st["store"].upsert_nodes(SURF, [Node(id="n3", label="plum" if n.label != "plum" else "fig")])
             elif kind == "EDGE_W":
-                e = st["store"].get_graph("g1").edges["e1"]
-                st["store"].upsert_edges("g1", [Edge(id="e1", src=e.src, dst=e.dst, weight=(0.0 if e.weight > 0.01 else 0.8), rel=e.rel)])
+                e = st["store"].get_graph(SURF).edges["e1"]
+                st["store"].upsert_edges(SURF, [Edge(id="e1", src=e.src, dst=e.dst, weight=(0.0 if e.weight > 0.01 else 0.8), rel=e.rel)])
             elif kind == "EDGE_DST":
-                e = st["store"].get_graph("g1").edges["e2"]
-                st["store"].upsert_edges("g1", [Edge(id="e2", src="n1", dst=("n3" if e.dst != "n3" or e.src != "n1" else "n2"), weight=1.0, rel="supports")])
+                e = st["store"].get_graph(SURF).edges["e2"]
+                st["store"].upsert_edges(SURF, [Edge(id="e2", src="n1", dst=("n3" if e.dst != "n3" or e.src != "n1" else "n2"), weight=1.0, rel="supports")])
             elif kind == "EDGE_NEW":
-                k = len(st["store"].get_graph("g1").edges) + 1
-                st["store"].upsert_edges("g1", [Edge(id="x%d" % k, src="n3", dst="n1", weight=1.0, rel="supports")])
+                k = len(st["store"].get_graph(SURF).edges) + 1
+                st["store"].upsert_edges(SURF, [Edge(id="x%d" % k, src="n3", dst="n1", weight=1.0, rel="supports")])
+            elif kind == "EDGE_REL":
+                e = st["store"].get_graph(SURF).edges["e1"]
+                st["store"].upsert_edges(SURF, [Edge(id="e1", src=e.src, dst=e.dst, weight=e.weight, rel=_other_rel(e.rel))])
+            elif kind == "NODE_NEW":
+                k = len(st["store"].get_graph(SURF).nodes) + 1
+                st["store"].upsert_nodes(SURF, [Node(id="nx%d" % k, label="pear")])
+            elif kind == "AP":
+                # an apply between two turns: the approved batch re-asserts the nodes the surface graph holds and carries one
+                # real edit; through the orchestrator's own apply seam, under the configuration in force
+                over = W.deep_merge(base, dyn)
+                try:
+                    acfg = cfg_for(over, ex.snap_dir)
+                except HarnessError:
+                    raise
+                except Exception:
+                    acfg = last_cfg if last_cfg is not None else c0
+                actx = W.make_ctx(acfg, "A", turn, now=W._ts(-day))
+                batch = [{"op": "upsert_node", "id": nid} for nid in sorted(st["store"].get_graph(SURF).nodes)]
+                batch.append(_ap_delta(st["store"].get_graph(SURF), op[1]))
+                try:
+                    orch_core.apply_changes(actx, st, T4Result(approved_deltas=batch, rejected_ops=[], reasons=[], metrics={}))
+                except HarnessError:
+                    raise
+                except Exception as e:
+                    obs.append({"t1": {"apply_raised": "%s: %s" % (type(e).__name__, str(e)[:160])}, "t2": None, "line": None})
+            elif kind == "RENEW":
+                st = None
+                rep = renew_state(states, cur, kinds, op[1])
+                attach_mgr(states[cur])
+                if env is not None:
+                    env.append(rep)
             elif kind == "GEL_W":
                 ge = (st.get("graph") or {}).get("edges") or {}
                 for k_, w_ in (("ep1→ep2", -0.5), ("ep2→ep4", 0.75), ("ep1→ep4", 0.0)):
@@ -528,8 +690,8 @@ def _first_diff(a, b):
     return None
 
 
-def fails(history, cache_cfg, scratch, extra_off=None):
-    on = execute(history, cache_cfg, True, scratch, extra_off=extra_off)
+def fails(history, cache_cfg, scratch, extra_off=None, env=None):
+    on = execute(history, cache_cfg, True, scratch, extra_off=extra_off, env=env)
     off = execute(history, cache_cfg, False, scratch)
     d = _first_diff(on, off)
     leak = [j for j, o in enumerate(on) if o.get("leak")]
@@ -570,7 +732,7 @@ def classify(history, cache_cfg, scratch):
         if swept and op[0] == "CFG":
             kinds.append("CFG[%s]" % _section(op[1]))   # sweep leg: one signature per configuration section, not per value
         else:
-            kinds.append(op[0] if op[0] not in ("CFG", "EP", "EPR") else "%s(%s)" % (op[0], op[1]))
+            kinds.append(op[0] if op[0] not in ("CFG", "EP", "EPR", "AP", "RENEW") else "%s(%s)" % (op[0], op[1]))
     if len(set(agents)) > 1:
         kinds.append("agent_switch")
     if len(set(texts)) > 1:
@@ -584,10 +746,14 @@ def classify(history, cache_cfg, scratch):
     return sig, what
 
 
+AP_DIRECT = {"W": ("EDGE_W",), "DST": ("EDGE_DST",), "REL": ("EDGE_REL",), "NEW_EDGE": ("EDGE_NEW",), "NEW_NODE": ("NODE_NEW",)}
+
+
 def is_minimal(history, cache_cfg, scratch):
     """No proper sub-history fails, and neither does the variant with one agent / one text throughout, nor the variant
-    in which a re-added episode gets a fresh id instead (those variants are in the enumeration themselves and are
-    reported there; a failure that survives the fresh id has nothing to do with the re-use of the id)."""
+    in which a re-added episode gets a fresh id instead, nor the variant in which an apply-carried edit is made through
+    the direct upsert instead (those variants are in the enumeration themselves and are reported there; a failure that
+    survives the fresh id / the direct upsert has nothing to do with the re-use of the id / the apply path)."""
     cands = []
     for i in range(len(history)):
         sub = history[:i] + history[i + 1:]
@@ -603,6 +769,9 @@ def is_minimal(history, cache_cfg, scratch):
     for i, o in enumerate(history):
         if o[0] == "EPR":
             cands.append(history[:i] + [["EP", o[1]]] + history[i + 1:])
+        if o[0] == "AP":
+            # the same edit through the direct upsert entry point: a failure that survives it is not about the apply path
+            cands.append(history[:i] + [list(AP_DIRECT[o[1]])] + history[i + 1:])
     for sub in cands:
         d, leak, _, _ = fails(sub, cache_cfg, scratch)
         if d is not None or leak:
@@ -612,7 +781,15 @@ def is_minimal(history, cache_cfg, scratch):
 
 def _judge(history, cache_cfg, st: Stats, scratch):
     """One history through the twin oracle; returns the caches-off observations."""
-    d, leak, on, off = fails(history, cache_cfg, scratch)
+    env = []
+    d, leak, on, off = fails(history, cache_cfg, scratch, env=env)
+    for rep in env:
+        st.add("renewals")
+        for k_, v_ in sorted(rep.items()):
+            if v_["same_address"]:
+                st.add("renewals_new_%s_at_the_address_of_the_dead_one" % k_)
+            if v_["dead_still_referenced"]:
+                st.add("renewals_dead_%s_still_referenced" % k_)
     nt = sum(1 for o in history if o[0] == "T")
     st.add("transitions", 2 * len(history))
     st.add("validated", nt)
@@ -673,6 +850,16 @@ def _sweep_worker(chunk, st: Stats, scratch):
             st.add("sweep_histories")
             if _stage_obs(off_r[-1]) != _stage_obs(base_off[-1]):
                 st.distinct("sweep_params_biting", "EPR under " + m)
+        # the concept graph and the state's identity are inputs of both stages under every configuration: every graph edit
+        # through both entry points (direct upsert, apply-carried batch) and both renewals of the state between two turns
+        for ed in GRAPH_EDITS + [("RENEW", k) for k in RENEW_KINDS]:
+            off_e = _judge(pre + [t, list(ed), t], cache_cfg, st, scratch)
+            st.add("sweep_histories")
+            ref = base_off[-1] if base_off is not None else off_e[0]
+            if _stage_obs(off_e[-1]) != _stage_obs(ref):
+                name = ed[0] if len(ed) == 1 else "%s(%s)" % ed
+                st.distinct("sweep_edits_biting", name)
+                st.distinct("sweep_params_biting", "%s under %s" % (name, m or "default"))
         for p in params:
             h = pre + [t, ["CFG", p], t]
             off = _judge(h, cache_cfg, st, scratch)
@@ -705,6 +892,7 @@ def sweep_groups(thorough):
             sm = _stage_of(m)
             ps = allp if sm == "both" else tuple(p for p in allp if _stage_of(p) in (sm, "both"))
             groups += [(SWEEP_CACHE_CONFIGS[0], m, x, ps) for x in texts]
+        groups += [(SWEEP_CACHE_CONFIGS[0], m, x, ()) for m in SWEEP_EDIT_MODES for x in texts]   # edits only
     return groups
 
 
@@ -732,8 +920,9 @@ def run(run: Run) -> None:
     run.notes["depth"] = depth
     run.notes["alphabet_size"] = len(OPS)
     run.notes["histories"] = len(items)
-    run.rule = ("every history of <=%d operations over a %d-letter alphabet (turns, graph edits, memory additions under a fresh id and under an id the index already holds, kill switch, "
-                "config changes, cache-clock / logical-day advances, state switch) ending in a turn and containing an earlier turn, "
+    run.rule = ("every history of <=%d operations over a %d-letter alphabet (turns, graph edits by direct upsert and one carried by an apply with a non-empty approved batch, memory additions under a fresh id and under an id the index already holds, kill switch, "
+                "config changes, cache-clock / logical-day advances, switch to a second live state, renewal of the state in use - released, then a brand-new state with equal ids / counts "
+                "and other memories constructed at the recycled addresses) ending in a turn and containing an earlier turn, "
                 "x 3 cache configurations (LRU+TTL stage caches, byte-bounded stage caches, turn-level manager alone), plus the <=3-operation "
                 "histories under the turn-level manager with cache_bust_mode none (version-keyed only); each executed with caches on and off "
                 "in the same process; non-trivial = >=2 turns" % (depth, len(OPS)))
@@ -752,10 +941,13 @@ def run(run: Run) -> None:
     run.rule += ("; plus the configuration sweep: for each of %d catalogued single-parameter changes P (the t1.* / t2.* keys the "
                  "validator accepts, the perf.* and scheduler knobs the two stages read, at zero / one / extreme values; keys left out "
                  "are listed with reasons) the histories [turn, P, turn] under both stage-cache kinds and [M, turn, turn], "
-                 "[M, turn, P, turn] (and, with the GEL edge rewrite resp. an episode re-added under its id in place of P, [M, turn, GEL_W, turn] and [M, turn, EPR, turn]) for M over %s; same twin oracle; a change counts as exercised only where it alters the "
+                 "[M, turn, P, turn] (and, with the GEL edge rewrite resp. an episode re-added under its id in place of P, [M, turn, GEL_W, turn] and [M, turn, EPR, turn]; "
+                 "likewise [M, turn, E, turn] and [turn, E, turn] for E over the %d graph edits - relabel / new node / new edge / edge re-weighted / redirected / re-typed, each by direct upsert and "
+                 "carried by an apply among re-asserted nodes - and the two renewals of the state, other memories or other graphs) for M over %s; same twin oracle; a change counts as exercised only where it alters the "
                  "caches-off result (distinct_sweep_params_biting)"
-                 % (len(SWEEP_PARAMS), "the whole catalogue x both stage-cache kinds x both texts" if run.thorough else
-                    "the %d mode-selecting entries with P addressing the same stage (LRU+TTL caches, text 'pear fig')" % len(SWEEP_MODES)))
+                 % (len(SWEEP_PARAMS), len(GRAPH_EDITS), "the whole catalogue x both stage-cache kinds x both texts" if run.thorough else
+                    "the %d mode-selecting entries with P addressing the same stage, the edits E also under the %d relation-multiplier tables (LRU+TTL caches, text 'pear fig')"
+                    % (len(SWEEP_MODES), len(SWEEP_EDIT_MODES))))
     run.pmap(_sweep_worker, groups, extra=(run.scratch,), chunks=len(groups))
     run.assume("configuration sweep: examines the two stage caches; the turn-level manager is switched off in both twin runs of that leg, because "
                "its blindness to configuration changes while the state version does not move is the listed known finding and is not re-derived per parameter")
@@ -767,7 +959,18 @@ def run(run: Run) -> None:
                "re-add and a second content on the next; what the index does with the earlier copy (append / replace) is not judged, only that "
                "caches on and off agree afterwards; a failing history that still fails with a fresh id in place of the re-used one is reported "
                "under the fresh-id history only")
-    run.assume("approved delta lists are empty in these worlds (rule-based plans carry no deltas); apply still bumps the version and invalidates")
+    run.assume("the approved delta lists of the turns themselves are empty in these worlds (rule-based plans carry no deltas; apply still bumps the version "
+               "and invalidates); an apply that carries deltas is the operation AP(kind): orchestrator.apply_changes called between two turns under the "
+               "configuration in force with a batch that re-asserts the nodes the surface graph holds plus one real edit (dict-form deltas, as "
+               "store.apply_deltas reads them).  The first graph of both worlds is the surface graph 'g:surface', the only graph apply writes")
+    run.assume("a failing history with an apply-carried edit that still fails with the same edit made by direct upsert is reported under the direct-upsert "
+               "history only; a re-typed edge toggles supports <-> associates and is observable only through t1.edge_type_mult (threshold crossings under "
+               "the default table; the zero-entry tables mult_sup0 / mult_assoc0 of the catalogue)")
+    run.assume("renewal of a state (RENEW): the state dict, its graph store and its memory index are released and their successors constructed at the "
+               "SAME addresses (mc/recycle.py: an allocator answer CPython gives routinely, here obtained deterministically; "
+               "n_renewals_new_*_at_the_address_of_the_dead_one counts it - where it is lower than n_renewals the recycling was not exercised in that many "
+               "cases); the new state has the builders' graph ids / node / edge / episode counts and numbers of mutations, so every version counter "
+               "and - for RENEW(mem) - every graph etag and label equals the dead state's; it gets its own turn-level manager, as a new session would")
     run.assume("TTL expiry is driven through injected clocks for the LRU+TTL stage caches and the turn-level manager; byte-bounded caches have no TTL")
 
 
